@@ -137,7 +137,7 @@ UNDECIDED = {
     'C15': [
         "first half (a loaded file lists and runs like the same lines typed in): decided as `the program SourceFileAnalyzer::run / analyze_lines stores is the fold, in file order, of: a numbered line whose text tokenizes to at least one token is stored under its number (replacing an earlier definition); any other line stores nothing` - stated with the same two functions of a line's text (parse_line_number, tokenize from the end of the number) that the prompt path's contract uses (unit interp_api: evaluate_impl stores apply_edit(lines, n, tokens)), so for files whose lines are all numbered, non-empty and tokenizable both paths store the same map. ASSUMED: the analyzer's tokenizer entry point (remaining_tokens_and_ranges) yields the same tokens as the prompt's (remaining_tokens); that the two units' uninterpreted functions are the same functions rests on both calling the same real parse_line_number / Tokenizer. That a numbered line is never taken for a command word at the prompt is not proved. Listing / running the two equal stores identically is the business of C04 / C03",
         "second half: decided as a per-function invariant (the switches of the interpreter in use equal the command-line options after new, load_source_file, show_interpreter_output, break_interpreter, show_error), not as an equality of two process transcripts; StdioInterpreter::run / run_impl (rustyline, ctrlc, channels) are outside Verus - a syntactic census pins the only other place the interpreter is replaced (NEW: args.create_interpreter())",
-        "--skip-check only suppresses the diagnostics loop (proved: the interpreter and options are the same on both paths); the text written to stdout/stderr (colored, format!) is not specified",
+        "--skip-check only suppresses the diagnostics loop (proved: the interpreter and options are the same on both paths); the terminal is specified as a count of writes (every record the interpreter produced is written exactly once by show_interpreter_output, an error at least once); the text written (colored, format!) is not specified",
     ],
     'C18': [
         "the call path from the RND( token to Rng::rnd (evaluate_function_call) is under contract for state and cursor facts only: that the value printed is the one rnd returned is not stated",
